@@ -528,6 +528,7 @@ class Runner:
             w.open_store(create=True)
             for idx, op in enumerate(self.sc['ops']):
                 w.wall.skew_us += 1_000_000
+                self._note_gone()
                 o = w.resolve(op)
                 if any(o.get(k) is None for k in ('_key', '_cert', '_issuer') if k in o):
                     self.events.append((idx, op['op'], 'skipped-dangling'))
@@ -1002,6 +1003,15 @@ class Runner:
         return True         # conservative: the model's default-None state already encodes "default deleted or never set"
 
     # ---- handles kept by the client across later operations -----------------------------------
+    def _note_gone(self):
+        """names of identities / keys that disappeared from the model since the last look (a later owner of the same name
+        is another incarnation)"""
+        m = self.w.model
+        now = set(m.ids) | {k for rec in m.ids.values() for k in rec['keys']}
+        prev = self.__dict__.get('_names_seen', set())
+        self.__dict__.setdefault('gone_log', []).extend(sorted(prev - now))
+        self._names_seen = now
+
     def do_hold(self, idx, o):
         w = self.w
         if w.st.fault_at is not None:
@@ -1017,7 +1027,8 @@ class Runner:
         except Exception as e:
             self.viol('view-raised', innermost_ndn_frame(e), f'hold #{idx}: looking up an existing identity/key raised {exc_brief(e)}')
             return
-        self.held = {'ident': ident, 'iname': i, 'key': key, 'kname': kn}
+        self._note_gone()
+        self.held = {'ident': ident, 'iname': i, 'key': key, 'kname': kn, 'mark': len(self.gone_log)}
         self.events.append((idx, 'hold', _s(i)))
 
     def do_use_held(self, idx):
@@ -1029,6 +1040,8 @@ class Runner:
             self.events.append((idx, 'use_held', 'skipped'))
             return
         m = w.model
+        self._note_gone()
+        gone_since = set(self.gone_log[h['mark']:])
         w.stats['probe.held_handle_used'] += 1
         for what, obj, nm in (('identity', h['ident'], h['iname']), ('key', h['key'], h['kname'])):
             if obj is None:
@@ -1048,6 +1061,8 @@ class Runner:
                 continue
             if not alive:
                 w.stats['probe.held_handle_stale'] += 1
+            if alive and nm in gone_since and not got and ln == 0:
+                continue        # its owner was deleted and another one created under the same name: the old object stays empty
             if got != want or ln != len(want):
                 self.viol('stale-view', what, f'use_held #{idx}: the {what} object obtained earlier for {_s(nm)} '
                           f'({"still there" if alive else "deleted since"}) lists {sorted(_s(x) for x in got)} (len {ln}); '
